@@ -12,7 +12,14 @@ import (
 	"golang.org/x/tools/go/ssa/ssautil"
 )
 
-const repoDir = "/repo"
+// repoDir: the tree under check. /repo unless GOSX_REPO names another checkout
+// (used for long background runs on a snapshot while /repo is being patched).
+var repoDir = func() string {
+	if d := os.Getenv("GOSX_REPO"); d != "" {
+		return d
+	}
+	return "/repo"
+}()
 const repoMod = "github.com/evolbioinfo/gotree"
 
 type loaded struct {
